@@ -39,6 +39,8 @@ def main(argv=None):
         check = Check(prop, ns.tier, LEVELS.get(prop, 'other'), seed)
         check.no_selftest = ns.no_selftest or bool(ns.repo) or bool(os.environ.get('VERIF_NO_SELFTEST'))
         mod.run(repo, check)
+        from sa.rules import shared7
+        shared7.extra(repo, check, prop)
         if ns.tier == 'thorough' and not check.no_selftest and not ns.replay:
             # self-validation of the rules on scratch copies (reported in the evidence; never changes the verdict on /repo)
             from sa import selftest
